@@ -1,5 +1,4 @@
 import ast
-import copy
 from contextlib import suppress
 from dataclasses import dataclass, field
 from typing import ClassVar, NoReturn, cast
@@ -40,7 +39,10 @@ def _fresh_args(args: list[ast.expr]) -> list[ast.expr]:
         if isinstance(x, ast.AST):
             if id(x) in memo:
                 return memo[id(x)]
-            new = copy.copy(x)
+            # Not `copy.copy`: it re-creates the node by calling its class without
+            # arguments, which fails for nodes with a custom `__init__` (e.g. the
+            # `MakeIter` nodes of a desugared comprehension argument).
+            new = type(x).__new__(type(x))
             memo[id(x)] = new
             for name, val in vars(x).items():
                 setattr(new, name, go(val))
